@@ -14,6 +14,7 @@ OBLIGATIONS = [
     "KafVerif.C21.lost_update_old",
     "KafVerif.C21.watch_race_old",
     "KafVerif.C21.operator_shrinks_old",
+    "KafVerif.C21.late_notification_seeded",
 ]
 BUILDS = {"h": ("root", "./cmd/verif_c21", ["C21"])}
 TECHNIQUE = ("Lean 4 invariant proof over the interleaved transition system (brokers' read-modify-write, watch refresh, operator "
@@ -27,7 +28,7 @@ ASSUMPTIONS = [
     "etcd: linearizable KV, txn atomic, mod revision strictly increases with every write of the key",
     "snapshots carry distinct topic names (CreateTopic checks; CRD names are unique)",
     "brokers that exhaust their 5 attempts report an error (no acknowledgement)",
-    "the snapshot watcher only ever calls refreshSnapshot (delivered explicitly by the harness; the live watch path is probed once per run)",
+    "etcd watch: notifications arrive in revision order, arbitrarily late (the harness interposes clientv3.Watcher, holds every notification and hands them to the real watchSnapshot goroutine on schedule, also inside a call between its read and its write-back)",
 ]
 NB = 3
 TOPICS = [1, 2, 3, 4, 5]
@@ -66,14 +67,20 @@ def gen_case(rng, n, first=False, nstress=2):
         if k < 11:
             outer_b = rng.below(NB)
             line = "call " + gen_call(rng, broker=outer_b)
-            if rng.chance(2, 5):
-                for _ in range(rng.range(1, 2)):
-                    ib = rng.choice([b for b in range(NB) if b != outer_b])
-                    inj = gen_call(rng, broker=ib, allow_op=True)
+            if rng.chance(1, 2):
+                for _ in range(rng.range(1, 3)):
+                    if rng.chance(1, 3):
+                        # an outdated watch notification reaches some broker (often the caller itself) mid-call
+                        inj = "late %d" % (outer_b if rng.chance(2, 3) else rng.below(NB))
+                    else:
+                        ib = rng.choice([b for b in range(NB) if b != outer_b])
+                        inj = gen_call(rng, broker=ib, allow_op=True)
                     line += " with " + inj
             ops.append(line)
-        elif k < 16:
+        elif k < 14:
             ops.append("watch %d" % rng.below(NB))
+        elif k < 16:
+            ops.append("late %d" % rng.below(NB))
         else:
             ops.append("publish " + gen_crd(rng))
     return ops
@@ -111,7 +118,7 @@ def monitor(ops, out):
     acked = {}
 
     def apply(group, res):
-        if group[0] == "op" or res != "ok":
+        if group[0] in ("op", "late") or res != "ok":
             return
         if group[1] in ("create", "grow"):
             t, n = group[2], int(group[3])
@@ -157,7 +164,7 @@ def monitor(ops, out):
 def run_impl(ck, binary, ops, tag):
     fn = ck.path("ops_%s.txt" % tag)
     open(fn, "w").write("\n".join(ops) + "\n")
-    rc, out, err = ck.run_bin(binary, stdin_path=fn, timeout=900)
+    rc, out, err = ck.run_bin(binary, stdin_path=fn, timeout=300)
     impl = out.split("\n")[:-1]
     if rc != 0 or len(impl) != len(ops):
         return fn, impl, "impl rc=%s lines=%d/%d %s" % (rc, len(impl), len(ops), err[-800:])
